@@ -21,23 +21,32 @@ func init() {
 // lenIsZero matches `len(x) == 0` / `len(x) != 0` where x satisfies ofWhat;
 // returns the comparison and whether it is the == form.
 func lenCmpZero(v ssa.Value, ofWhat func(ssa.Value) bool) (eq bool, ok bool) {
+	// any spelling of the emptiness test: len == 0, len != 0, len < 1, len <= 0, len > 0, len >= 1, and the same
+	// with the constant on the left
 	b, isB := v.(*ssa.BinOp)
-	if !isB || (b.Op != token.EQL && b.Op != token.NEQ) {
+	if !isB {
 		return false, false
 	}
-	k, isK := b.Y.(*ssa.Const)
-	if !isK || k.Value == nil || k.Value.String() != "0" {
-		return false, false
+	op, x, y := b.Op, b.X, b.Y
+	if _, constLeft := x.(*ssa.Const); constLeft {
+		x, y, op = y, x, mirrorOp[op]
 	}
-	call, isC := b.X.(*ssa.Call)
-	if !isC {
+	k, isK := y.(*ssa.Const)
+	call, isC := x.(*ssa.Call)
+	if !isK || k.Value == nil || !isC {
 		return false, false
 	}
 	bi, isBi := call.Call.Value.(*ssa.Builtin)
 	if !isBi || bi.Name() != "len" || !ofWhat(call.Call.Args[0]) {
 		return false, false
 	}
-	return b.Op == token.EQL, true
+	switch kv := k.Value.String(); {
+	case op == token.EQL && kv == "0", op == token.LSS && kv == "1", op == token.LEQ && kv == "0":
+		return true, true
+	case op == token.NEQ && kv == "0", op == token.GTR && kv == "0", op == token.GEQ && kv == "1":
+		return false, true
+	}
+	return false, false
 }
 
 // forEachClosures lists the function literals passed to MemDB.ForEach in the
@@ -580,10 +589,14 @@ func runC04(c *an.Ctx) {
 			eq, ok := lenCmpZero(x, func(a ssa.Value) bool { return fieldOfLoad(a) == valueField })
 			return ok && eq
 		}}
+		tombNeg := &an.Guard{Name: "len(iter.value)!=0", FailValue: an.AFalse, MatchValue: func(x ssa.Value) bool {
+			eq, ok := lenCmpZero(x, func(a ssa.Value) bool { return fieldOfLoad(a) == valueField })
+			return ok && !eq
+		}}
 		// with the emptiness test always true, every return of fn that is still reachable yields false (the value
 		// is evaluated in the state, so `return iter.skipDeleted()` is judged by what the helper can return)
 		bad, nRet := "", 0
-		sites := an.RunAllFail(fn, []*an.Guard{tomb}, nil, false, func(r *an.Result) {
+		sites := an.RunAllFail(fn, []*an.Guard{tomb, tombNeg}, nil, false, func(r *an.Result) {
 			for _, ret := range an.Returns(fn) {
 				if len(ret.Results) != 1 {
 					continue
@@ -640,6 +653,11 @@ func runC04(c *an.Ctx) {
 						}
 						okVal = okVal && good
 					case originField:
+						// only a store that can be the last one before the function returns counts
+						// (`origin = FromMem; if cmp == 0 { origin = FromBoth }` ends with FromBoth)
+						if !finalStore(fn, st, originField, map[ssa.Value]an.Abs{cmpCall.Value(): an.AInt(0)}) {
+							continue
+						}
 						nOrigin++
 						k, isK := val.(*ssa.Const)
 						okOrigin = okOrigin && isK && k.Value != nil && k.Value.String() == "2"
